@@ -3794,6 +3794,35 @@ static void scan_globals(void) {
   Obj *cur = &head;
 
   for (Obj *var = globals; var; var = var->next) {
+    if (var->is_function)
+      continue;
+
+    // [https://www.sigbus.info/n1570#6.2.7p3] "int a[]; int a[5];"
+    // declares one array of five elements: a declaration of incomplete
+    // array type is completed by any other declaration of the object.
+    if (var->ty->kind == TY_ARRAY && var->ty->size < 0) {
+      for (Obj *var2 = globals; var2; var2 = var2->next) {
+        if (!var2->is_function && var2->ty->kind == TY_ARRAY &&
+            var2->ty->size >= 0 && !strcmp(var->name, var2->name)) {
+          var->ty = var2->ty;
+          break;
+        }
+      }
+
+      // [https://www.sigbus.info/n1570#6.9.2p2] A tentative definition
+      // that is still incomplete at the end of the translation unit
+      // behaves as if it had an initializer equal to 0: one element.
+      if (var->ty->size < 0 && var->is_tentative)
+        var->ty = array_of(var->ty->base, 1);
+    }
+
+    // A struct or union may have been completed after the declaration
+    // of the object, e.g. "struct S s; struct S { long x; };".
+    if (var->align < var->ty->align)
+      var->align = var->ty->align;
+  }
+
+  for (Obj *var = globals; var; var = var->next) {
     if (!var->is_tentative) {
       cur = cur->next = var;
       continue;
